@@ -17,7 +17,8 @@ AlgoOptimize(l) == IF IsEmptyLoc(l) THEN l ELSE AlgoCombine(l, FALSE)
 AlgoOptimizeCombine(l) == IF IsEmptyLoc(l) THEN l ELSE AlgoCombine(l, TRUE)
 (* relative_interval_to_parent_location: walk, re-sort, optimise, set strand *)
 AlgoSub(l, a, b, rs) ==
-  IF a = b THEN << <<<<Rel2Par(l, a), Rel2Par(l, a)>>>>, RelStrand(rs, St(l)) >>
+  IF a = b THEN LET q == IF St(l) = "-" THEN Rel2Par(l, a) + 1 ELSE Rel2Par(l, a)     \* the 5' edge of base a
+                IN << <<<<q, q>>>>, RelStrand(rs, St(l)) >>
   ELSE LET w == AlgoWalk(l, a, b)
            w2 == IF Variant = "walk-off-by-one" /\ St(l) = "-" /\ Len(w) > 1
                  THEN [w EXCEPT ![1] = <<w[1][1] + 1, w[1][2]>>] ELSE w
